@@ -90,6 +90,16 @@ theorem decode_congr (L t n : Int) (hL : -1 ≤ L) (hn : n = 1 ∨ n = 2 ∨ n =
   simp only []
   rcases hn with rfl | rfl | rfl | rfl <;> simp only [win] at ht ⊢ <;> simp <;> (repeat' split) <;> omega
 
+/-- The decoder never leaves the packet-number space (for a receiver that can still receive a
+larger number, `L < 2^62 − 1`): the `candidate < 2^62 − win` guard. -/
+theorem decode_in_space (L t n : Int) (hL : -1 ≤ L) (hL2 : L < maxPacketNumber)
+    (hn : n = 1 ∨ n = 2 ∨ n = 3 ∨ n = 4) (ht0 : 0 ≤ t) (ht : t < win n) :
+    decodePN L t n ≤ maxPacketNumber := by
+  unfold maxPacketNumber at *
+  unfold decodePN
+  simp only []
+  rcases hn with rfl | rfl | rfl | rfl <;> simp only [win] at ht ⊢ <;> simp <;> (repeat' split) <;> omega
+
 /-! ### Bytes on the wire -/
 
 theorem append_length (pn A : Int) : ((appendPN pn A).length : Int) = pnLen pn A := by
